@@ -377,6 +377,7 @@ pub fn run_batch<C: Check>(c: Arc<C>, cfg: BatchCfg) -> i32 {
         known_hits: BTreeMap<String, u64>,
         samples: Vec<Value>,
         aborted: Vec<(u64, String)>,
+        digest: u64,
     }
 
     // OS-level deadlock watchdog
@@ -443,6 +444,7 @@ pub fn run_batch<C: Check>(c: Arc<C>, cfg: BatchCfg) -> i32 {
                         known_hits: BTreeMap::new(),
                         samples: Vec::new(),
                         aborted: Vec::new(),
+                        digest: 0,
                     };
                     loop {
                         if stop.load(Ordering::Relaxed) {
@@ -471,6 +473,8 @@ pub fn run_batch<C: Check>(c: Arc<C>, cfg: BatchCfg) -> i32 {
                                 o.aborted.push((idx, a.clone()));
                             }
                             let hh = hist_hash(&out);
+                            // order-independent digest of (run index, history, schedule): equal across processes and worker counts
+                            o.digest = o.digest.wrapping_add(mix(&[idx, hh, hash_of(&out.choices)]));
                             if o.hists.len() < 2_000_000 {
                                 o.scheds.insert(hash_of(&out.choices));
                                 o.hists.insert(hh);
@@ -519,6 +523,7 @@ pub fn run_batch<C: Check>(c: Arc<C>, cfg: BatchCfg) -> i32 {
     let mut known_hits: BTreeMap<String, u64> = BTreeMap::new();
     let mut samples = Vec::new();
     let mut aborted = Vec::new();
+    let mut digest = 0u64;
     for h in handles {
         let o = h.join().expect("worker thread panicked (harness error)");
         stats.merge(&o.stats);
@@ -547,6 +552,7 @@ pub fn run_batch<C: Check>(c: Arc<C>, cfg: BatchCfg) -> i32 {
         }
         samples.extend(o.samples);
         aborted.extend(o.aborted);
+        digest = digest.wrapping_add(o.digest);
     }
     stop.store(true, Ordering::Relaxed);
     found.sort_by_key(|f| f.idx);
@@ -630,6 +636,7 @@ pub fn run_batch<C: Check>(c: Arc<C>, cfg: BatchCfg) -> i32 {
                 "scheduler_picks": picks,
                 "distinct_schedules": scheds.len(),
                 "distinct_histories": hists.len(),
+                "runs_digest": format!("{digest:016x}"),
                 "policies": policies,
                 "faults_and_probes_fired": stats.counters,
                 "known_findings_hit": known_hits,
@@ -647,7 +654,7 @@ pub fn run_batch<C: Check>(c: Arc<C>, cfg: BatchCfg) -> i32 {
     }
 
     println!(
-        "{} {}: {} runs ({} skipped) in {:.1}s, {} distinct histories, {} non-trivial, {} distinct schedules, {:.1} h simulated, {} violations, {} known",
+        "{} {}: {} runs ({} skipped) in {:.1}s, {} distinct histories, {} non-trivial, {} distinct schedules, {:.1} h simulated, {} violations, {} known, digest {:016x}",
         c.property(),
         cfg.tier.name(),
         runs,
@@ -658,7 +665,8 @@ pub fn run_batch<C: Check>(c: Arc<C>, cfg: BatchCfg) -> i32 {
         scheds.len(),
         virt_ms as f64 / 3.6e6,
         found.len(),
-        known_hits.len()
+        known_hits.len(),
+        digest
     );
     if exit == 0 && !harness_err.is_empty() {
         for e in &harness_err {
